@@ -106,19 +106,25 @@ def describe(cls):
     return out
 
 
-def first_use(C, Sub, trigger):
-    """perform one first use; returns the observation of the thread doing it"""
+def first_use(C, Sub, trigger, after_trigger=None):
+    """perform one first use; returns the observation of the thread doing it. `after_trigger` is called right after the
+    triggering access itself (the preemption window is the trigger, not the observation that follows)."""
+    done = after_trigger or (lambda: None)
     if trigger == "instantiate":
         o = C()
+        done()
         return {"inst": repr(o), "made": getattr(o, "_made", None), "desc": describe(C)}
     if trigger == "metadata":  # a pure lookup: the thread inspects the class, it does not instantiate it
         C.__spec_class__
+        done()
         return {"desc": describe(C)}
     if trigger == "fields":
         C.__dataclass_fields__
+        done()
         return {"desc": describe(C)}
     if trigger == "subclass":
         o = Sub()
+        done()
         r = repr(o).replace("Sub(", "C(", 1)
         return {"inst": r, "made": getattr(o, "_made", None), "desc": describe(C)}
     if trigger == "metadata-then-method":
@@ -183,9 +189,9 @@ def make_preempt(shape, nthreads, fa=None, fb=None, klo=1, khi=1500, only=None):
         C, Sub = make_class(shape, False)
         obs = {}
 
-        def run(name, trig):
+        def run(name, trig, after=None):
             try:
-                obs[name] = first_use(C, Sub, trig)
+                obs[name] = first_use(C, Sub, trig, after)
             except instrument.WouldBlock:
                 raise
             except Exception as ex:
@@ -197,7 +203,7 @@ def make_preempt(shape, nthreads, fa=None, fb=None, klo=1, khi=1500, only=None):
                 trig_c = pick(TRIGGERS, tc)
                 instrument.arm(j, "preempt", callback=lambda: run("C", trig_c))
                 try:
-                    run("B", trig_b)
+                    run("B", trig_b, instrument.disarm)
                 finally:
                     instrument.disarm()
             else:
@@ -205,7 +211,7 @@ def make_preempt(shape, nthreads, fa=None, fb=None, klo=1, khi=1500, only=None):
 
         instrument.arm(k, "preempt", callback=thread_b, only_modules=only)
         try:
-            run("A", trig_a)
+            run("A", trig_a, instrument.disarm)
         except instrument.WouldBlock:
             instrument.disarm()
             raise Skip()  # the preempting thread needs a lock held by the preempted one: not LIFO-nested
@@ -234,18 +240,28 @@ def obligations(tier):
     obs = []
     T = 600 if tier == "quick" else 3000
     obs.append(Ob("C19.seq", make_seq(), [(s, t, t2) for s in range(len(SHAPES)) for t in range(4) for t2 in (0, 1)], f"sequential: class shapes {SHAPES} (Attr / dataclasses.field declarations, not-yet-bootstrapped parent, __new__ defined or inherited, keyed) built inside the path; first trigger and a second access from {TRIGGERS} by symbolic selectors (selector-only part)", expect={"ok"}, timeout=T))
-    shapes = ["attrs", "lazy-parent"] if tier == "quick" else SHAPES
     core = {"spec_classes.spec_class", "spec_classes.methods.base"}
-    only = core if tier == "quick" else None
-    width = 60 if tier == "quick" else 150
-    kmax = 360 if tier == "quick" else 1500
-    trigs = ["instantiate", "metadata"] if tier == "quick" else TRIGGERS
-    for shape in shapes:
-        for fa in trigs:
-            for fb in trigs:
-                for klo in range(1, kmax, width):
-                    warm = [(0, 0, 0, k, 1) for k in (klo, klo + 7, klo + width - 1)]
-                    obs.append(Ob(f"C19.preempt2.{shape}.A-{fa}.B-{fb}.k{klo}-{klo + width - 1}", make_preempt(shape, 2, fa, fb, klo, klo + width - 1, only), warm, f"E2-preempt, 2 threads, class shape {shape}: A's first use ({fa}) preempted at its k-th executed statement of {'spec_class.py / methods/base.py' if only else 'library code'}, k symbolic in [{klo},{klo + width - 1}]; B performs a complete first use ({fb}); LIFO-nested schedules only; a B that needs a lock held by A = infeasible schedule (skipped)", expect=set(), timeout=T, per_path=120, group=f"C19.preempt2.{shape}"))
+    width = 60
+    plan = []  # (shape, trigger of A, trigger of B, statement filter, kmax)
+    if tier == "quick":
+        for fa, fb in (("instantiate", "instantiate"), ("instantiate", "metadata"), ("metadata", "instantiate"), ("metadata", "metadata")):
+            plan.append(("lazy-parent", fa, fb, core, 660))
+        for fa, fb in (("instantiate", "instantiate"), ("metadata", "instantiate")):
+            plan.append(("attrs", fa, fb, core, 600))
+    else:
+        for shape in SHAPES:
+            for fa in TRIGGERS:
+                for fb in TRIGGERS:
+                    plan.append((shape, fa, fb, core, 660))
+        for shape in ("attrs", "lazy-parent"):
+            for fa, fb in (("instantiate", "instantiate"), ("instantiate", "metadata"), ("metadata", "instantiate")):
+                plan.append((shape, fa, fb, None, 1500))
+        width = 110
+    for shape, fa, fb, only, kmax in plan:
+        for klo in range(1, kmax, width):
+            warm = [(0, 0, 0, k, 1) for k in (klo, klo + 7, klo + width - 1)]
+            tagm = "core" if only else "all"
+            obs.append(Ob(f"C19.preempt2.{shape}.A-{fa}.B-{fb}.{tagm}.k{klo}-{klo + width - 1}", make_preempt(shape, 2, fa, fb, klo, klo + width - 1, only), warm, f"E2-preempt, 2 threads, class shape {shape}: A's triggering access ({fa}) preempted at its k-th executed statement of {'spec_class.py / methods/base.py' if only else 'library code'}, k symbolic in [{klo},{klo + width - 1}] (the whole trigger executes ~{'600' if only else '1400'} such statements); B performs a complete first use ({fb}); LIFO-nested schedules only; a B that needs a lock held by A = infeasible schedule (skipped)", expect=set(), timeout=T, per_path=120, group=f"C19.preempt2.{shape}"))
     if tier == "thorough":
         for shape in ("attrs", "lazy-parent"):
             warm = [(ta, tb, tc, k, j) for ta in (0, 1) for tb in (0, 1) for tc in (0, 2) for k in (11, 400) for j in (5, 300)]
